@@ -116,7 +116,7 @@ def _c07_jobs(tier):
     dl = 75 if q else 840
     for st in ("fifo", "lifo", "pool"):
         # 2 threads: bound 3 (quick) / 4; 3 threads at bound 2 / 3 (ABA-type bugs need 3 threads, see DESIGN 3/C07)
-        n2, n3 = (3, 5) if q else (3, 5)
+        n2, n3 = (3, 5) if q else (2, 3)   # thorough: 15 jobs, one wave on 16 cores
         for sh in range(n2):
             jobs.append(("c07_lin", ["--struct", st, "--threads", 2, "--maxops", 2 if q else 3, "--maxcap", 2 if q else 3, "--bound", 3 if q else 4,
                                      "--prog-shard", "%d/%d" % (sh, n2), "--deadline", dl]))
@@ -439,7 +439,7 @@ def _c12_jobs(tier):
     jobs = []
     for topo in (0, 1, 2, 3, 4, 5):
         for pool in (0, 2):
-            jobs.append(("c12_request", ["--topo", topo, "--pool", pool, "--nreq", 2, "--depth", 6 if q else 8, "--deadline", 75 if q else 840]))
+            jobs.append(("c12_request", ["--topo", topo, "--pool", pool, "--nreq", 2, "--depth", 6 if q else (8 if pool == 0 and topo in (0, 3, 4) else 7), "--deadline", 75 if q else 840]))
         jobs.append(("c12_request", ["--topo", topo, "--pool", 0, "--nreq", 3, "--depth", 5 if q else 6, "--deadline", 75 if q else 840]))
         # providers that answer inside register, and a requester whose uref_mgr callback withdraws and re-issues its uclock request
         for (tprov, cb) in ((1, 0), (1, 1), (0, 1), (2, 0)):
@@ -454,7 +454,7 @@ CHECKS["C12"] = {
     "jobs": {"quick": _c12_jobs("quick"), "thorough": _c12_jobs("thorough")},
     "rule": "state = one operation history (no merging); non-trivial = histories in which a provider held a registration or the head callback fired",
     "bounds": {"quick": "6 topologies x pool depth {0,2}: all sequences of up to 6 operations with 2 request types; 3 request types up to depth 5, also with providers answering inside register, providers declining every request (the probes must then answer) and with a requester callback that withdraws and re-issues another request (mutating the request lists during re-plumbing)",
-               "thorough": "depth 8 (2 request types) and 6 (3 request types)"},
+               "thorough": "depth 7, depth 8 for topologies 0, 3, 4 at pool depth 0 (2 request types); depth 6 (3 request types)"},
     "assumptions": DEFAULT_ASSUME + ["a requester unregisters its requests before releasing the pipe it registered them on (ownership rule)"],
     "job_timeout": {"quick": 300, "thorough": 1500},
 }
